@@ -639,3 +639,189 @@ def _c12():
 
 
 _c12()
+
+
+# ----------------------------------------------------------------------------------------------- C11
+def _c11():
+    R("c11-rloss-rs-raw", C, '''        self._params["rs"] = abs(rs)
+        self._params["rt"] = abs(rt)
+        self._limits = _check_limits(limits)
+        self._ipr = None
+
+    def _solv_inp_curr(self, vi, vo, io, phase, phase_conf={}, pstate={}):
+        """Calculate RLoss''', '''        self._params["rs"] = rs
+        self._params["rt"] = abs(rt)
+        self._limits = _check_limits(limits)
+        self._ipr = None
+
+    def _solv_inp_curr(self, vi, vo, io, phase, phase_conf={}, pstate={}):
+        """Calculate RLoss''', fires=["C11"])
+    R("c11-pload-pwrs-raw", C, '        self._params["pwrs"] = abs(pwrs)', '        self._params["pwrs"] = pwrs', fires=["C11"])
+    R("c11-converter-eff-zero-allowed", C, "            if not (eff > 0.0):", "            if not (eff >= 0.0):", fires=["C11"])
+    R("c11-converter-eff-upper-bound-2", C, "            if not (eff <= 1.0):", "            if not (eff < 2.0):", fires=["C11"])
+    R("c11-converter-table-max-unchecked", C, '            if np.max(eff["eff"]) > 1.0:\n                raise ValueError("Efficiency values must be <= 1.0")\n', '', fires=["C11"])
+    R("c11-rload-zero-allowed", C, '        if abs(rs) == 0.0:\n            raise ValueError("rs must be > 0!")\n', '', fires=["C11"])
+    R("c11-pswitch-ig-check-inverted", C, '''        if isinstance(ig, dict):
+            _check_interp(ig, "ig")
+            if np.min(ig["ig"]) < 0.0:
+                raise ValueError("ig values must be >= 0.0")
+            if len(ig["vi"]) == 1:
+                self._ipr = _Interp1d(ig["io"], ig["ig"][0])
+            else:
+                cur = []
+                volt = []
+                for v in ig["vi"]:
+                    cur += ig["io"]
+                    volt += len(ig["io"]) * [v]
+                    igi = np.asarray(ig["ig"]).reshape(1, -1)[0].tolist()
+                self._ipr = _Interp2d(cur, volt, igi)
+        else:
+            self._ipr = _Interp0d(abs(ig))
+        self._params["ig"] = ig
+        self._params["iis"] = abs(iis)
+        self._params["rt"] = abs(rt)
+        self._limits = _check_limits(limits)
+
+    def _solv_inp_curr(self, vi, vo, io, phase, phase_conf=[], pstate={}):
+        """Calculate PSwitch''', '''        if isinstance(ig, dict):
+            _check_interp(ig, "ig")
+            if np.min(ig["ig"]) > 0.0:
+                raise ValueError("ig values must be >= 0.0")
+            if len(ig["vi"]) == 1:
+                self._ipr = _Interp1d(ig["io"], ig["ig"][0])
+            else:
+                cur = []
+                volt = []
+                for v in ig["vi"]:
+                    cur += ig["io"]
+                    volt += len(ig["io"]) * [v]
+                    igi = np.asarray(ig["ig"]).reshape(1, -1)[0].tolist()
+                self._ipr = _Interp2d(cur, volt, igi)
+        else:
+            self._ipr = _Interp0d(abs(ig))
+        self._params["ig"] = ig
+        self._params["iis"] = abs(iis)
+        self._params["rt"] = abs(rt)
+        self._limits = _check_limits(limits)
+
+    def _solv_inp_curr(self, vi, vo, io, phase, phase_conf=[], pstate={}):
+        """Calculate PSwitch''', fires=["C11"])
+    R("c11-source-limits-unchecked", C, '''        self._params["rt"] = 0.0
+        self._limits = _check_limits(limits)''', '''        self._params["rt"] = 0.0
+        self._limits = limits''', fires=["C11"])
+    R("c11-vloss-constant-raw", C, '''            self._params["vdrop"] = abs(vdrop)
+            self._ipr = _Interp0d(abs(vdrop))
+        self._limits = _check_limits(limits)
+
+    def _solv_inp_curr(self, vi, vo, io, phase, phase_conf={}, pstate={}):
+        """Calculate VLoss''', '''            self._params["vdrop"] = abs(vdrop)
+            self._ipr = _Interp0d(vdrop)
+        self._limits = _check_limits(limits)
+
+    def _solv_inp_curr(self, vi, vo, io, phase, phase_conf={}, pstate={}):
+        """Calculate VLoss''', fires=["C11"])
+    R("c11-linreg-dropout-signed", C, "        if not (abs(vdrop) < abs(vo)):", "        if not (vdrop < abs(vo)):", fires=["C11"])
+    R("c11-interp1d-values-raw", C, "        self._fx = np.abs(np.asarray(fx))", "        self._fx = np.asarray(fx)", fires=["C11", "C10"])
+    R("c11-check-limits-accepts-triples", C, "                if len(limits[key]) != 2 or not (", "                if len(limits[key]) < 2 or not (", fires=["C11"])
+    R("c11-check-interp-monotonic-nonstrict", C, '    if not np.all(np.diff(idata["io"]) > 0):', '    if not np.all(np.diff(idata["io"]) >= 0):', fires=["C11", "C10"])
+    R("c11-check-interp-shape-one-axis", C, "    if vsh[0] != zsh[0] or ish[0] != zsh[1]:", "    if vsh[0] != zsh[0]:", fires=["C11", "C10"])
+    R("eq-c11-rload-check-spelling", C, '        if abs(rs) == 0.0:\n            raise ValueError("rs must be > 0!")', '        if rs == 0:\n            raise ValueError("rs must be > 0!")', silent=["C11"])
+
+
+_c11()
+
+
+# ----------------------------------------------------------------------------------------------- C10
+def _c10():
+    R("c10-interp1d-axes-swapped", C, "        return np.interp(np.abs(x), self._x, self._fx)", "        return np.interp(np.abs(x), self._fx, self._x)", fires=["C10"])
+    R("c10-interp1d-sign-not-ignored", C, "        return np.interp(np.abs(x), self._x, self._fx)", "        return np.interp(x, self._x, self._fx)", fires=["C10"])
+    R("c10-interp1d-extrapolation-zero", C, "        return np.interp(np.abs(x), self._x, self._fx)", "        return np.interp(np.abs(x), self._x, self._fx, left=0.0)", fires=["C10"])
+    R("c10-clamp-xmin-xmax-swapped", C, "                return self._intp([self._xmin], [self._ymin])[0]", "                return self._intp([self._xmax], [self._ymin])[0]", fires=["C10"])
+    R("c10-clamp-uses-x-for-y", C, "            return self._intp([self._xmin], [y])[0]", "            return self._intp([self._xmin], [x])[0]", fires=["C10"])
+    R("c10-clamp-below-ymin-goes-to-ymax", C, "        if y < self._ymin:\n            return self._intp([x], [self._ymin])[0]", "        if y < self._ymin:\n            return self._intp([x], [self._ymax])[0]", fires=["C10"])
+    R("c10-bounds-of-raw-axis", C, "        self._xmin = min(self._x)", "        self._xmin = min(x)", fires=["C10"])
+    R("c10-converter-cur-volt-swapped", C, "                    ef = np.asarray(eff[\"eff\"]).reshape(1, -1)[0].tolist()\n                self._ipr = _Interp2d(cur, volt, ef)", "                    ef = np.asarray(eff[\"eff\"]).reshape(1, -1)[0].tolist()\n                self._ipr = _Interp2d(volt, cur, ef)", fires=["C10"])
+    R("c10-pswitch-validates-other-key", C, '''        self._params["rs"] = abs(rs)
+        if isinstance(ig, dict):
+            _check_interp(ig, "ig")''', '''        self._params["rs"] = abs(rs)
+        if isinstance(ig, dict):
+            _check_interp(ig, "vdrop")''', fires=["C10"])
+    R("c10-vloss-repeat-by-vi-count", C, '''                for v in vdrop["vi"]:
+                    cur += vdrop["io"]
+                    volt += len(vdrop["io"]) * [v]
+                    vd = np.asarray(vdrop["vdrop"]).reshape(1, -1)[0].tolist()
+                self._ipr = _Interp2d(cur, volt, vd)
+            self._params["vdrop"] = vdrop
+        else:
+            self._params["vdrop"] = abs(vdrop)
+            self._ipr = _Interp0d(abs(vdrop))
+        self._limits''', '''                for v in vdrop["vi"]:
+                    cur += vdrop["io"]
+                    volt += len(vdrop["vi"]) * [v]
+                    vd = np.asarray(vdrop["vdrop"]).reshape(1, -1)[0].tolist()
+                self._ipr = _Interp2d(cur, volt, vd)
+            self._params["vdrop"] = vdrop
+        else:
+            self._params["vdrop"] = abs(vdrop)
+            self._ipr = _Interp0d(abs(vdrop))
+        self._limits''', fires=["C10"])
+    R("c10-linreg-rows-sorted", C, '                for v in igc["vi"]:', '                for v in sorted(igc["vi"]):', fires=["C10"])
+    R("c10-pmux-one-row-uses-last-row", C, '''        if isinstance(ig, dict):
+            _check_interp(ig, "ig")
+            if np.min(ig["ig"]) < 0.0:
+                raise ValueError("ig values must be >= 0.0")
+            if len(ig["vi"]) == 1:
+                self._ipr = _Interp1d(ig["io"], ig["ig"][0])
+            else:
+                cur = []
+                volt = []
+                for v in ig["vi"]:
+                    cur += ig["io"]
+                    volt += len(ig["io"]) * [v]
+                    igi = np.asarray(ig["ig"]).reshape(1, -1)[0].tolist()
+                self._ipr = _Interp2d(cur, volt, igi)
+        else:
+            self._ipr = _Interp0d(abs(ig))
+        self._params["ig"] = ig
+        self._params["iis"] = abs(iis)
+        self._params["rt"] = abs(rt)
+        self._limits = _check_limits(limits)
+
+    def _get_pri_inp''', '''        if isinstance(ig, dict):
+            _check_interp(ig, "ig")
+            if np.min(ig["ig"]) < 0.0:
+                raise ValueError("ig values must be >= 0.0")
+            if len(ig["vi"]) == 1:
+                self._ipr = _Interp1d(ig["io"], ig["io"])
+            else:
+                cur = []
+                volt = []
+                for v in ig["vi"]:
+                    cur += ig["io"]
+                    volt += len(ig["io"]) * [v]
+                    igi = np.asarray(ig["ig"]).reshape(1, -1)[0].tolist()
+                self._ipr = _Interp2d(cur, volt, igi)
+        else:
+            self._ipr = _Interp0d(abs(ig))
+        self._params["ig"] = ig
+        self._params["iis"] = abs(iis)
+        self._params["rt"] = abs(rt)
+        self._limits = _check_limits(limits)
+
+    def _get_pri_inp''', fires=["C10"])
+    R("c10-linreg-lookup-signed", C, '''        i = io + self._ipr._interp(abs(io), abs(vi[0]))
+        if phase_conf and phase not in phase_conf:
+            i = self._params["iis"]
+        return i
+
+    def _solv_outp_volt(self, vi, ii, io, phase, phase_conf=[], pstate={}):
+        """Calculate LinReg''', '''        i = io + self._ipr._interp(io, vi[0])
+        if phase_conf and phase not in phase_conf:
+            i = self._params["iis"]
+        return i
+
+    def _solv_outp_volt(self, vi, ii, io, phase, phase_conf=[], pstate={}):
+        """Calculate LinReg''', fires=["C10", "C01"])
+
+
+_c10()
